@@ -928,6 +928,8 @@ class Interp:
         if isinstance(n.func, ast.Name):
             if n.func.id == 'old' and self.old_env is not None:
                 return self.engine.eval_old(self, n.args[0], env)
+            if n.func.id == 'old' and self.p.spec_mode:
+                return self.eval(n.args[0], env)       # evaluated in the pre-state: old(e) is e
             if n.func.id == 'implies' and self.p.spec_mode and len(n.args) == 2:
                 x = self.eval(n.args[0], env)
                 if x is False:
